@@ -282,9 +282,14 @@ Definition cy_l_iter (magic : Z) (main : lmsg) : list rec * status :=
       match dec compression value with
       | DRaise e => ([], SFail (FRaise e))
       | DOk out =>
-        match (if 0 <? magic then do lo <- cy_last_offset out; Ok (wrap64 (m_offset main - lo)) else Ok (-1)) with
+        match (if 0 <? magic then do lo <- cy_last_offset out; Ok (Some lo) else Ok None) with
         | Fail e => ([], SFail e)
-        | Ok abs => cy_l_inner (S (List.length out)) main abs out 0 []
+        | Ok None => cy_l_inner (S (List.length out)) main (-1) out 0 []
+        | Ok (Some lo) =>
+          (* `cdef int64_t _read_last_offset(self) except -1`: a last offset of -1 is taken for an
+             error return; no exception is set, so the generator simply ends *)
+          if lo =? -1 then ([], SDone)
+          else cy_l_inner (S (List.length out)) main (wrap64 (m_offset main - lo)) out 0 []
         end
       end
   end.
